@@ -921,6 +921,81 @@ func (iv *Inv) discharge(s invSite, reach map[*ssa.Function]*ssa.Function) {
 	iv.r.Bad(iv.rule, key, pos, detail+"; reached via "+PathTo(reach, s.fn))
 }
 
+// int64OK: Int64() of x at instruction `at` of fn cannot panic: dominated by IsInt64() on the same value; or fn is a
+// function literal created under IsInt64() of the captured value; or x is a parameter of fn and the same holds for the
+// argument at every call site on the inventoried trees (a gauge helper that is handed the amount).
+func (iv *Inv) int64OK(fn *ssa.Function, at ssa.Instruction, x ssa.Value, depth int) (bool, string) {
+	edges := EdgesWhere(fn, func(base ssa.Value) (bool, bool) {
+		c, ok := base.(*ssa.Call)
+		if ok && hasSuffixAny(callName(c.Common()), ".IsInt64", ".IsUint64") && samePath(c.Common().Args[0], x) {
+			return true, true
+		}
+		return false, false
+	})
+	if MustPass(fn, edges, at.Block()) {
+		return true, "g1: dominated by IsInt64() on the same value"
+	}
+	// closure (deferred gauge): the closure is created under IsInt64() of the captured value
+	if parent := fn.Parent(); parent != nil {
+		sig := iv.closurePathSig(fn, x)
+		if sig != "" {
+			for _, b := range parent.Blocks {
+				for _, in := range b.Instrs {
+					mc, ok := in.(*ssa.MakeClosure)
+					if !ok || mc.Fn != ssa.Value(fn) {
+						continue
+					}
+					pe := EdgesWhere(parent, func(base ssa.Value) (bool, bool) {
+						c, ok := base.(*ssa.Call)
+						if ok && hasSuffixAny(callName(c.Common()), ".IsInt64", ".IsUint64") && iv.parentPathSig(mc, c.Common().Args[0]) == sig {
+							return true, true
+						}
+						return false, false
+					})
+					if MustPass(parent, pe, mc.Block()) {
+						return true, "g1: the closure is created under IsInt64() of the captured value"
+					}
+				}
+			}
+		}
+	}
+	if prm, ok := stripConv(x).(*ssa.Parameter); ok && prm.Parent() == fn && depth < 3 {
+		idx := -1
+		for i, q := range fn.Params {
+			if q == prm {
+				idx = i
+			}
+		}
+		callers := iv.treeCallers(fn)
+		if idx >= 0 && len(callers) > 0 {
+			var hows []string
+			for _, cs := range callers {
+				if cs.Common().IsInvoke() || cs.Static != fn || idx >= len(cs.Common().Args) {
+					return false, "Int64() panics above 2^63-1; the value is a parameter and a dynamic caller was found"
+				}
+				ok2, how := iv.int64OK(cs.Caller, cs.Instr, cs.Common().Args[idx], depth+1)
+				if !ok2 {
+					// the argument has a vetted semantic signature (the vetting argument is about the value, not about where
+					// the conversion stands)
+					for l := 0; l <= 2 && !ok2; l++ {
+						sk := "int64 Int64 | " + semSig(iv.w, cs.Caller, l, cs.Common().Args[idx])
+						if reason, isVetted := vettedSemantic[sk]; isVetted {
+							iv.usedSem[sk] = true
+							ok2, how = true, "vetted ("+sk+"): "+reason
+						}
+					}
+				}
+				if !ok2 {
+					return false, "Int64() panics above 2^63-1 and the argument handed in by " + funcName(cs.Caller) + " is not dominated by IsInt64()"
+				}
+				hows = append(hows, how+" at the call in "+funcName(cs.Caller))
+			}
+			return true, strings.Join(dedupe(hows), "; ")
+		}
+	}
+	return false, "Int64() panics above 2^63-1 and is not dominated by IsInt64() on the same value"
+}
+
 // divisorAtCallers: the divisor of s is a parameter of the function; at every call site on the inventoried trees the
 // argument is a non-zero constant, tested non-zero before the call, a field validated positive, or an expression with
 // a vetted semantic signature. vet reports that a vetted argument was used.
@@ -1010,42 +1085,7 @@ func (iv *Inv) tryDischarge(s invSite) (bool, string) {
 	switch s.class {
 	case "int64":
 		call := s.instr.(ssa.CallInstruction).Common()
-		x := call.Args[0]
-		edges := EdgesWhere(fn, func(base ssa.Value) (bool, bool) {
-			c, ok := base.(*ssa.Call)
-			if ok && hasSuffixAny(callName(c.Common()), ".IsInt64", ".IsUint64") && samePath(c.Common().Args[0], x) {
-				return true, true
-			}
-			return false, false
-		})
-		if MustPass(fn, edges, s.instr.Block()) {
-			return true, "g1: dominated by IsInt64() on the same value"
-		}
-		// closure (deferred gauge): the closure is created under IsInt64() of the captured value
-		if parent := fn.Parent(); parent != nil {
-			sig := iv.closurePathSig(fn, x)
-			if sig != "" {
-				for _, b := range parent.Blocks {
-					for _, in := range b.Instrs {
-						mc, ok := in.(*ssa.MakeClosure)
-						if !ok || mc.Fn != ssa.Value(fn) {
-							continue
-						}
-						pe := EdgesWhere(parent, func(base ssa.Value) (bool, bool) {
-							c, ok := base.(*ssa.Call)
-							if ok && hasSuffixAny(callName(c.Common()), ".IsInt64", ".IsUint64") && iv.parentPathSig(mc, c.Common().Args[0]) == sig {
-								return true, true
-							}
-							return false, false
-						})
-						if MustPass(parent, pe, mc.Block()) {
-							return true, "g1: the closure is created under IsInt64() of the captured value"
-						}
-					}
-				}
-			}
-		}
-		return false, "Int64() panics above 2^63-1 and is not dominated by IsInt64() on the same value"
+		return iv.int64OK(fn, s.instr, call.Args[0], 0)
 	case "quo", "intdiv":
 		var d ssa.Value
 		if s.class == "intdiv" {
@@ -1247,6 +1287,20 @@ func (iv *Inv) parentPathSig(mc *ssa.MakeClosure, v ssa.Value) string {
 			if b == v {
 				return fmt.Sprintf("#%d%s", k, strings.Join(parts, ""))
 			}
+			// the captured variable's cell was promoted in the enclosing function (mem2reg.go): the value it holds (its
+			// single store) stands for a load of the cell
+			if al, ok := b.(*ssa.Alloc); ok && al.Referrers() != nil && bindingAtCreation[mc] != nil && bindingAtCreation[mc][k] == v {
+				// ... and the cell is not assigned again after the literal was created
+				later := false
+				for _, ref := range *al.Referrers() {
+					if st, ok := ref.(*ssa.Store); ok && st.Addr == ssa.Value(al) && canReach(mc, st) {
+						later = true
+					}
+				}
+				if !later {
+					return fmt.Sprintf("#%d%s*", k, strings.Join(parts, ""))
+				}
+			}
 		}
 		switch x := v.(type) {
 		case *ssa.UnOp:
@@ -1412,9 +1466,37 @@ func (iv *Inv) validatedByDenomCall(fn *ssa.Function, at ssa.Instruction, d ssa.
 
 // calleeValidatesDenomParam: the callee hands p (or every element of p) to sdk.ValidateDenom and fails when that fails.
 func (iv *Inv) calleeValidatesDenomParam(callee *ssa.Function, p *ssa.Parameter) bool {
+	return iv.calleeValidatesDenomParamD(callee, p, 0)
+}
+
+func (iv *Inv) calleeValidatesDenomParamD(callee *ssa.Function, p *ssa.Parameter, depth int) bool {
 	for _, s2 := range iv.w.CG().Sites[callee] {
 		c2 := siteCall(s2)
-		if c2 == nil || !hasSuffixAny(callName(c2.Common()), "types.ValidateDenom") {
+		if c2 == nil {
+			continue
+		}
+		// handed on to a validation helper one level down, whose failure fails this function
+		if h := s2.Static; h != nil && h.Blocks != nil && !s2.Invoke && depth < 3 && iv.w.isProdFunc(h) && h != callee {
+			for j, a := range c2.Common().Args {
+				if a != ssa.Value(p) || j >= len(h.Params) {
+					continue
+				}
+				if !iv.calleeValidatesDenomParamD(h, h.Params[j], depth+1) {
+					continue
+				}
+				fail := NilEdges(callee, errValues(callee, c2), false)
+				ok := len(fail) > 0
+				for _, e := range fail {
+					if !FailsFrom(e.To()) {
+						ok = false
+					}
+				}
+				if ok {
+					return true
+				}
+			}
+		}
+		if !hasSuffixAny(callName(c2.Common()), "types.ValidateDenom") {
 			continue
 		}
 		arg := stripConv(c2.Common().Args[0])
